@@ -41,6 +41,8 @@ def drive(a, rng, nuc_only):
     cmap = gen.CMap("id") if nuc_only and rng.random() < 0.7 else gen.CMap(rng.choice(gen.CMap.KINDS))
     tmap = gen.random_maps(rng)[1]
     tables = gen.build_tables(a, cmap, tmap)
+    if rng.random() < 0.4:
+        gen.add_user_flags(tables, rng)      # user flag bits never matter
     ts = tables.tree_sequence()
     N = ts.num_nodes
     S = [int(u) for u in ts.samples()]
